@@ -12,7 +12,8 @@ MANIFEST = dict(
     text="Bounded symbolic execution of the real path encoder/decoder on names whose characters are unconstrained solver "
          "variables (any Unicode code point): round trip from_string(str(ObjectPath(g, c))) == (g, c) for all names up to a "
          "length bound, root and group-only paths included, and injectivity (equal path strings imply equal name tuples) across "
-         "all pairs of length tuples up to a bound; one concrete writer->reader cycle per path class with names taken from "
+         "all pairs of length tuples up to a bound; the path property of the writer's GroupObject/ChannelObject equals the encoding "
+         "of its own names for ordered pairs of objects created in one process (no aliasing through shared state); one concrete writer->reader cycle per path class with names taken from "
          "the solver's models.",
     note="Trusted: z3, sx engine, SymStr model of str (+, replace of one character, join, iteration, equality). Bound: name length. "
          "The end-to-end write/read cycle is concrete (one witness per explored path class). If the decoder uses a C-level "
@@ -23,17 +24,17 @@ MANIFEST = dict(
 
 META = dict(
     level='model_checking',
-    functions=['common.ObjectPath.__init__', 'common.ObjectPath.from_string', 'common._components_to_path',
+    functions=['writer.GroupObject.path', 'writer.ChannelObject.path', 'common.ObjectPath.__init__', 'common.ObjectPath.from_string', 'common._components_to_path',
                'common._path_components', 'writer.TdmsWriter.write_segment (concrete witnesses)',
                'tdms.TdmsFile._read_file (concrete witnesses)'],
     bounds=dict(quick='round trip: |group|,|channel| <= 3, any code points; injectivity: every pair of name tuples with lengths <= 2 '
-                      '(arity 0,1,2 mixed)',
+                      '(arity 0,1,2 mixed); writer object paths: ordered pairs of group/channel objects, total name length <= 5 (thorough 7)',
                 thorough='round trip: lengths <= 5 / 4; injectivity lengths <= 3'),
     outside=['names longer than the bound', 'dict hashing of symbolic strings (names are concretised before lookup)'],
     stubs=['SymStr: str model with concrete length and symbolic code points', "str.join / str() on symbolic strings"],
     assumptions=['Python str semantics of +, replace, join, iteration, == as modelled by SymStr'],
     buckets=dict(all=['roundtrip-with-quote', 'roundtrip-with-slash', 'roundtrip-plain', 'injective-distinct-lengths',
-                      'e2e-witness']),
+                      'e2e-witness', 'writer-object-paths']),
     replays_per_signature=4,
     validate_samples=12,
 )
@@ -52,6 +53,11 @@ def tasks(tier, seed):
     shapes = [()] + [(a,) for a in range(M + 1)] + [(a, b) for a in range(M + 1) for b in range(M + 1)]
     for s1_, s2_ in itertools.combinations_with_replacement(shapes, 2):
         ts.append(dict(kind='injective', a=list(s1_), b=list(s2_)))
+    # writer objects: the path of a GroupObject / ChannelObject equals the encoding of its own names, whatever object was asked before
+    wshapes = [s_ for s_ in shapes if len(s_) >= 1]
+    for s1_, s2_ in itertools.product(wshapes, repeat=2):
+        if sum(s1_) + sum(s2_) <= (5 if tier == 'quick' else 7):
+            ts.append(dict(kind='walias', a=list(s1_), b=list(s2_)))
     ts.sort(key=lambda t: -(sum(t.get('a', [])) + sum(t.get('b', [])) + (t.get('lg') or 0) + (t.get('lc') or 0)))
     return ts
 
@@ -95,6 +101,19 @@ def _e2e(names):
     if ch.name != c or ch.group_name != g or list(ch[:]) != [1, 2] or list(grp[c + "'"][:]) != [3]:
         return 'channel %r group %r data %r' % (ch.name, ch.group_name, list(ch[:]))
     return None
+
+
+def _ref_path(names):
+    """the TDMS path encoding, stated independently"""
+    return '/' + '/'.join("'" + n.replace("'", "''") + "'" for n in names) if names else '/'
+
+
+def _wobj(names):
+    import numpy as np
+    from nptdms.writer import GroupObject, ChannelObject
+    if len(names) == 1:
+        return GroupObject(names[0])
+    return ChannelObject(names[0], names[1], np.array([1], dtype=np.int32))
 
 
 def _roundtrip_ok(common, names):
@@ -172,7 +191,29 @@ def run_task(task):
         if task['a'] != task['b']:
             ctx.note('injective-distinct-lengths')
 
-    st = explore(rt if task['kind'] == 'roundtrip' else inj, max_paths=400000, time_budget=1500)
+    def walias(ctx):
+        n1, v1 = _names(ctx, 'a', task['a'])
+        n2, v2 = _names(ctx, 'b', task['b'])
+        try:
+            o1, o2 = _wobj(n1), _wobj(n2)
+            p1 = o1.path
+            p2 = o2.path
+            p1again = o1.path
+            r1 = dispatch.sx_call(str, common.ObjectPath(*n1))
+            r2 = dispatch.sx_call(str, common.ObjectPath(*n2))
+        except (TypeError, AttributeError) as e:
+            raise Inconclusive('engine cannot carry: %s' % str(e)[:100])
+
+        def eq(x, y):
+            if isinstance(x, str) and isinstance(y, str):
+                return z3.BoolVal(x == y)
+            xs = x if isinstance(x, SymStr) else SymStr(list(x))
+            return xs.expr_eq(y)
+        ctx.prove(z3.And(eq(p1, r1), eq(p2, r2), eq(p1again, r1)),
+                  lambda m: dict(names_a=_concrete(m, v1), names_b=_concrete(m, v2)), what='writer-path')
+        ctx.note('writer-object-paths')
+
+    st = explore(dict(roundtrip=rt, injective=inj, walias=walias)[task['kind']], max_paths=400000, time_budget=1500)
     st.pop('wall_s', None)
     if st['inconclusive'] and all('engine cannot carry' in x for x in st['inconclusive']):
         # rescue: exhaustive enumeration over the small alphabet (stated coverage hole, not a solver verdict)
@@ -208,6 +249,17 @@ def _enumerate(common, task):
                     err = repr(e)[:100]
                 if err:
                     viol.append(dict(what='e2e', inputs=dict(names=list(names)), names=list(names), error=err))
+    elif task['kind'] == 'walias':
+        for na in itertools.product(*[_all_names(n) for n in task['a']]):
+            for nb in itertools.product(*[_all_names(n) for n in task['b']]):
+                count += 1
+                o1, o2 = _wobj(list(na)), _wobj(list(nb))
+                got = [o1.path, o2.path, o1.path]
+                if got != [_ref_path(na), _ref_path(nb), _ref_path(na)]:
+                    viol.append(dict(what='writer-path', inputs=dict(names_a=list(na), names_b=list(nb)),
+                                     names_a=list(na), names_b=list(nb), got=got))
+                    if len(viol) >= 50:
+                        return viol, count
     else:
         seen = {}
         for na in itertools.product(*[_all_names(n) for n in task['a']]):
@@ -259,6 +311,13 @@ def replay(art):
         return None
     na = _names_from(art, 'a', task['a'])
     nb = _names_from(art, 'b', task['b'])
+    if task['kind'] == 'walias':
+        o1, o2 = _wobj(na), _wobj(nb)
+        got = [o1.path, o2.path, o1.path]
+        if got != [_ref_path(na), _ref_path(nb), _ref_path(na)]:
+            return dict(sig=signature(dict(task=task, what='writer-path')), names_a=na, names_b=nb, got=got,
+                        expected=[_ref_path(na), _ref_path(nb)])
+        return None
     if na != nb and str(common.ObjectPath(*na)) == str(common.ObjectPath(*nb)):
         return dict(sig=signature(dict(task=task, what='alias')), names_a=na, names_b=nb, path=str(common.ObjectPath(*na)))
     return None
